@@ -398,3 +398,7 @@ func ASCII(s string) bool {
 	}
 	return ok
 }
+
+// WSDialClosed reports whether the agent-side end of the i-th dialled websocket
+// was closed (engine only).
+func WSDialClosed(i int) bool { return false }
